@@ -88,6 +88,11 @@ def gen_auth_case(rng: random.Random, tier: str, backends=('dict',)) -> dict:
         steps.append({'attempt': att})
         if cfg['tls'] and rng.random() < 0.15:
             steps.append({'starttls': True})
+        if proto == 'sieve' and rng.random() < 0.35:
+            # back to the unauthenticated state on the same connection:
+            # whatever the earlier success left behind must not help the
+            # next attempt
+            steps.append({'unauth': True})
     return {'config': cfg, 'proto': proto, 'peer': peer, 'steps': steps}
 
 
@@ -347,6 +352,24 @@ def run_sieve(case: dict, trace: bool) -> dict:
                 if r is not None and r.ok:
                     state['tls_done'] = True
                     world.run(0.5, None, [])
+                continue
+            if step.get('unauth'):
+                r = cl.command(b'UNAUTHENTICATE\r\n')
+                if r is None:
+                    if not cl.conn.done:
+                        violate('unanswered', 'UNAUTHENTICATE unanswered')
+                    break
+                if r.ok:
+                    state['auth'] = None
+                elif state['auth'] is not None:
+                    violate('unauth', 'UNAUTHENTICATE while authenticated '
+                            'as %s answered %r' % (state['auth'], r))
+                seen = reveal()
+                if seen == 'closed':
+                    break
+                if seen != state['auth']:
+                    violate('identity', 'after UNAUTHENTICATE the connection '
+                            'acts as %r, model says %r' % (seen, state['auth']))
                 continue
             att = step['attempt']
             attempts += 1
